@@ -24,6 +24,10 @@ var (
 	// is only valid for phantomHkdfMinVersion and newer.
 	ErrMissingAddrs = errors.New("no valid addresses specified to select")
 
+	// ErrNoWeight indicates that the subnet sets to choose from have a total weight of zero (or
+	// that there are none), so no weighted choice can be made.
+	ErrNoWeight = errors.New("total weight of the subnets to select from is zero")
+
 	// ErrAddrOutOfRange indicates that the selected address does not fit into the address length
 	// of its IP version.
 	ErrAddrOutOfRange = errors.New("selected address out of range for its IP version")
@@ -63,6 +67,12 @@ func getSubnetsHkdf(sc genericSubnetConfig, seed []byte, weighted bool) ([]*phan
 		sort.Slice(choices, func(i, j int) bool {
 			return choices[i].GetWeight() < choices[j].GetWeight()
 		})
+
+		// rand.Int panics if its bound is not positive: with no subnets to choose from, or only
+		// zero weights, there is nothing to select and that is a configuration error, not a crash.
+		if totWeight <= 0 {
+			return nil, ErrNoWeight
+		}
 
 		// Naive method: get random int, subtract from weights until you are < 0
 		hkdfReader := hkdf.New(sha256.New, seed, nil, []byte("phantom-select-subnet"))
